@@ -101,7 +101,12 @@ def can_message_struct(draw, name: str, cfg: CanCfg, s: M.Schema, helper_names: 
             if hfields:
                 helpers.append(M.Struct(hn, hfields))
                 t = M.StructRef(hn)
-                remaining -= used
+                cnt = 1
+                if cfg.arrays and used > 0 and 2 * used <= remaining and draw(st.booleans()):
+                    # array of structs: unrolled element by element by the back ends
+                    cnt = draw(st.integers(2, max(2, min(3, remaining // used))))
+                    t = M.Arr(t, cnt)
+                remaining -= used * cnt
         elif kind == 1 and cfg.arrays and remaining >= 2:
             lt = draw(leaf_type(cfg, s.enums, max(1, remaining // 2)))
             lw = reflayout.wire_width(s, lt)
